@@ -159,6 +159,43 @@ func L2Features() []MethodCase {
 		m.HTTP.Params = []Map{{"qq", "q"}}
 		out = append(out, MethodCase{M: m})
 	}
+	// services with base paths: one or two base paths x routes {relative, absolute (//...)} in
+	// every order of up to three routes (an absolute route ignores the base paths)
+	for _, bases := range [][]string{{"/b1"}, {"/b1", "/b2"}, {"/b1/{ver}", "/b2/{ver}"}} {
+		for _, shape := range []string{"rel", "abs", "rel+abs", "abs+rel", "rel+rel", "rel+abs+rel", "abs+abs"} {
+			if len(bases) == 1 && shape != "rel+abs" && shape != "abs" {
+				continue
+			}
+			m := mk("base-paths-" + fmt.Sprint(len(bases)) + map[bool]string{true: "v", false: ""}[strings.Contains(bases[len(bases)-1], "{")] + "-" + shape)
+			req := []string{"id"}
+			attrs := []*Attr{A("id", P(KString)), A("qq", P(KInt))}
+			if strings.Contains(bases[len(bases)-1], "{ver}") {
+				// a base path with a parameter: every route must bind it, so only relative routes
+				if strings.Contains(shape, "abs") {
+					n--
+					continue
+				}
+				req = append(req, "ver")
+				attrs = append(attrs, A("ver", P(KString)))
+			}
+			m.Payload = ObjT(req, attrs...)
+			m.HTTP.Verb = "GET"
+			m.HTTP.Params = []Map{{"qq", "q"}}
+			var routes []string
+			for i, k := range strings.Split(shape, "+") {
+				p := fmt.Sprintf("/%s/r%d/{id}", m.Name, i)
+				if k == "abs" {
+					p = "/" + p
+				}
+				routes = append(routes, p)
+			}
+			m.HTTP.Path = routes[0]
+			for _, r := range routes[1:] {
+				m.HTTP.Routes = append(m.HTTP.Routes, "GET "+r)
+			}
+			out = append(out, MethodCase{M: m, Own: true, SvcPath: bases[0], SvcPaths: bases[1:]})
+		}
+	}
 	{
 		m := mk("catch-all")
 		m.Payload = ObjT([]string{"rest"}, A("rest", P(KString)))
